@@ -384,7 +384,10 @@ class Bicomplex(object):
         return (self + (self ** 2 - 1) ** 0.5).log()
 
     def arcsinh(self):
-        return (self + (self ** 2 + 1) ** 0.5).log()
+        # arcsinh is odd: evaluate z + sqrt(z**2 + 1) without cancellation for Re(z) < 0
+        sign = np.where(self.z1.real < 0, -1.0, 1.0)
+        z = self * sign
+        return (z + (z * z + 1) ** 0.5).log() * sign
 
     def arctanh(self):
         return 0.5 * (((1 + self) / (1 - self)).log())
